@@ -23,6 +23,9 @@ BLOCKS = {
     'two-oscillating': ("x = -0.8*y + G\ny = 0.5*x - 2", {'x': {'y': -0.8}, 'y': {'x': 0.5}}, ['x', 'y'], ['G'], {}),
     'lagged':          ("x = 0.25*x + 0.5*LX + G\nLX = x(k-1)", {'x': {'x': 0.25}}, ['x'], ['G'], {}),
     'deco-tree':       ("x = 0.5*x + G\nd1 = 2*x + G\nd2 = d1 - x\nd3 = d2*d1", {'x': {'x': 0.5}}, ['x'], ['G'], {}),
+    # aliases written target-first: the reducer sets the dependents (s = p, v = 0.5*p + 1) aside BEFORE the alias p they depend on,
+    # so the decorative pass has to defer them within the step
+    'deco-dependent-first': ("x = 0.5*x + G\np = x\na = p\ns = a\nv = 0.5*a + 1", {'x': {'x': 0.5}}, ['x'], ['G'], {}),
     'alias-chain':     ("x = 0.5*y + G\ny = z\nz = w\nw = 0.5*x + 1", {'x': {'w': 0.5}, 'w': {'x': 0.5}}, ['x', 'y', 'z', 'w'], ['G'], {}),
     'user-function':   ("x = 0.25*fn(x) + G\nd = fn(x)", {'x': {'x': 0.5}}, ['x'], ['G'], {'fn': lambda v: 2 * v + 1}),
     'division-first':  ("x = 1/Y + 0*y\ny = 0.5*y + G", {'x': {}, 'y': {'y': 0.5}}, ['x', 'y'], ['G', 'Y'], {}),
@@ -108,8 +111,10 @@ def real_case(case):
             es.TimeSeries[nme][0] = SymReal(syms[nme + '@0'])
         try:
             for step in range(1, maxtime + 1):
-                if neighbour:
+                if neighbour == 'neighbour':
                     neighbour_solver(name, maxtime)
+                if neighbour == 'trace':
+                    es.TraceStep = maxtime            # convergence tracing of the last period (a diagnostic: must not change any value)
                 es.SolveStep(step)
         except ConvergenceError:
             o = 'ConvergenceError'
@@ -157,7 +162,9 @@ def real_case(case):
         elif r == 'unknown':
             out['unknown'] += 1
         return o
-    D.run_all(path)
+    from vf.props.c15 import StubRender
+    with StubRender():
+        D.run_all(path)
     out.update(paths=D.paths, forks=D.forks, queries=D.queries, solver_s=D.solver_s, exhaustive=D.exhaustive, dunknown=D.unknown, wall=_t.time() - _t0)
     return out
 
@@ -205,6 +212,9 @@ def real_cases(tier):
         out.append((name, 1e-2, 2, True, 2 if name in ('one-affine', 'lagged') else 1, 'neighbour'))
         if tier == 'thorough':
             out.append((name, 1e-2, 3, False if name != 'deco-tree' else True, 1, 'neighbour'))
+    # the same solve with step tracing switched on for the last of two periods (the exogenous value moves between them)
+    for name in ('deco-dependent-first', 'deco-tree', 'alias-chain', 'lagged') + (('two-coupled', 'user-function') if tier == 'thorough' else ()):
+        out.append((name, 1e-2, 2, True, 2, 'trace'))
     return out
 
 
@@ -227,7 +237,8 @@ es.ExtractVariableList(); es.SetInitialConditions()
 for n in k0: es.TimeSeries[n][0] = vals[n + '@0']
 try:
     for step in range(1, maxtime + 1):
-        if neighbour: neighbour_solver(name, maxtime)
+        if neighbour == 'neighbour': neighbour_solver(name, maxtime)
+        if neighbour == 'trace': es.TraceStep = maxtime
         es.SolveStep(step)
 except ValueError as e:
     print('raised', repr(e)); sys.exit(0)
@@ -422,7 +433,7 @@ def run(tier, seed):
         chk.count('forks', o['forks'])
         chk.solver_s += o['solver_s']
         chk.queries += o['queries']
-        what = 'real: block %s tol=%g cap=%d reduction=%s periods=%d' % tuple(o['case'][:5]) + (' with a same-named neighbour solver solved before every period' if len(o['case']) > 5 else '')
+        what = 'real: block %s tol=%g cap=%d reduction=%s periods=%d' % tuple(o['case'][:5]) + ({'neighbour': ' with a same-named neighbour solver solved before every period', 'trace': ' with step tracing of the last period'}[o['case'][5]] if len(o['case']) > 5 else '')
         if not o['exhaustive'] or o['unknown'] or o['dunknown']:
             chk.ob('unknown', what + ' (paths %d, unknown %d)' % (o['paths'], o['unknown'] + o['dunknown']))
         else:
